@@ -15,7 +15,7 @@ META = {
     ),
     "C10": dict(
         engine="E6 config",
-        technique="Lean 4 theorems on the load/reload model by induction over arbitrary sequences of reload attempts with a fault at any stage (read, validate, cipher of any service, bind at any index): serving table = plan of the last accepted attempt, manager handles = exactly that configuration's, failed attempts restore state and never unbind a serving address at any intermediate step; regenerated wiring facts; differential correspondence with the real loadConfig/runConfig/Stop in a child process (real files, failing binds, client probes, /proc/net, goroutines)",
+        technique="Lean 4 theorems on the load/reload model by induction over arbitrary sequences of reload attempts with a fault at any stage (read, validate, cipher of any service, bind at any index): serving table = plan of the last accepted attempt, manager handles = exactly that configuration's, failed attempts restore state and never unbind a serving address at any intermediate step; regenerated wiring facts; differential correspondence with the real loadConfig/runConfig/Stop in a child process (real files, failing binds, client probes, /proc/net, goroutines); the validation stage itself (Config.Validate) is TRANSLATED from the Go source into Lean on every run (extract/golean.go -> Gen/Code.lean) and proved, for all configurations and parser behaviours, never to panic and to accept exactly what the model's validate accepts (Proofs/TieValidate.lean)",
         text="Kernel-checked for every sequence of (configuration, fault) pairs: what serves is the most recent accepted configuration and nothing else; a load succeeds iff no stage fails; a failed load leaves table and handles as they were; a successful one fully replaces both; every reachable state is consistent.",
         note="Trusted: Lean kernel, hand model validated by the config campaign, syntactic wiring facts. YAML parsing and address parsing are parameters.",
     ),
